@@ -352,6 +352,11 @@ func runC05(c C05Case, cs *kit.CaseStats) error {
 			} else {
 				cs.Class("pool-rejected")
 			}
+			// the submitter goes on using its own memory (template reuse, fee
+			// bumps): nothing of it may be shared with the pool
+			for i := range set2 {
+				mutateV2(&set2[i], si)
+			}
 
 		case st.Mine:
 			b, found := coreutils.MineBlock(node.CM, kit.Actors[1].Addr, 5*time.Second)
